@@ -215,7 +215,8 @@ Theorem run_js_failure_has_no_execution p bs :
   xr_err (run_js p bs) = true -> xr_exe (run_js p bs) = None.
 Proof.
   unfold run_js. destruct (run_ops (pg_ops p) bs []) as [[b em] failed].
-  destruct failed; [reflexivity|]. destruct (pg_term p); cbn; intros H; try discriminate; reflexivity.
+  destruct failed; [reflexivity|]. destruct (pg_term p); cbn; intros H; try discriminate; try reflexivity.
+  destruct b as [bs'|]; [|reflexivity]. destruct (lookup k bs'); [destruct (json_eqb _ _)|]; discriminate.
 Qed.
 
 Theorem js_failure_emits_nothing p bs :
@@ -263,5 +264,6 @@ Theorem js_success_emits_in_order p b :
   exists ob, xr_exe (run_js p (Some b)) = Some (ob, emits_of (pg_ops p) b).
 Proof.
   unfold run_js. destruct (run_ops_some (pg_ops p) b []) as [b' ->]. cbn [app].
-  destruct (pg_term p); cbn; intros H; try discriminate; eexists; reflexivity.
+  destruct (pg_term p); cbn; intros H; try discriminate; try (eexists; reflexivity).
+  destruct (lookup k b'); [destruct (json_eqb _ _)|]; eexists; reflexivity.
 Qed.
